@@ -1,5 +1,6 @@
 """C16 — exec applies operations exactly as the script would."""
 import random
+import re
 from . import runlib as R
 from .c04 import family
 
@@ -67,6 +68,11 @@ def lines(ctx):
 
 
 def canon(line):
+    # (the state after a failed exec is compared implementation vs model: canon_fail)
+    return re.sub(r" afterfail=\S+", "", line).replace("FAIL:EXC", "FAIL:1")
+
+
+def canon_fail(line):
     return line.replace("FAIL:EXC", "FAIL:1")
 
 
@@ -80,6 +86,8 @@ def run(ctx):
     model = ctx.driver_sharded(ls, "model")
     spec = ctx.driver_sharded(ls, "spec")
     ctx.compare("exec", ls, impl, model, spec, observable=canon, nontrivial=nontrivial)
+    # a failed exec leaves exactly what the operations before the failing one did (script-code start, counters, positions included)
+    ctx.compare("exec-failed-state", ls, impl, model, None, observable=canon_fail, nontrivial=lambda c, im: "afterfail=" in im)
     R.histogram(ctx, [("end=" + l.split("result=")[1].split(" ")[0]) if "result=" in l else l for l in impl], "results")
 
 
